@@ -98,6 +98,8 @@ CAT = {
     'resp_status_abc': [B(':status', 'abc')],
     'resp_status_empty': [B(':status', ''), B('server', 'x')],
     'resp_status_1xx': [B(':status', '1xx')],
+    # a cookie of 19 octets (never indexed: shorter than 20) given with a space in front of it (20 before it is trimmed)
+    'req_cookie19ws': req(extra=[B('cookie', ' ' + 'c=' + 'x' * 17)]),
     'req_cookies_dup': req(extra=[B('cookie', 'a=1'), B('cookie', 'b=2'), B('cookie', 'c=3'), B('cookie', 'd=4'), B('cookie', 'a=1')]),
 }
 CAT['req_status'] = [B(':method', 'GET'), B(':scheme', 'https'), B(':authority', 'a.example'), B(':path', '/'),
@@ -150,7 +152,7 @@ TOK = {
     'cl3': B('content-length', '3'), 'cl5': B('content-length', '5'), 'cl_bad': B('content-length', 'abc'), 'empty_name': B('', 'v'), 'nonutf8': B('x-bin', '\xff\xfe'),
     'authz': B('authorization', 'secret'), 's_xk': S('x-k', 'v1'), 's_method': S(':method', 'GET'), 'up_pseudo': B(':Method', 'GET'),
     'pad_value': B('x-pad', ' v '), 'keepalive': B('Keep-Alive', 'x'),
-    'ws_value_nl': B('x-k', 'v\n'), 'ws_value_ff': B('x-k', '\x0cv'), 's_ws_value_nl': S('x-s', '\tv\r\n'),
+    'cookie19ws': B('cookie', ' ' + 'c=' + 'x' * 17), 'ws_value_nl': B('x-k', 'v\n'), 'ws_value_ff': B('x-k', '\x0cv'), 's_ws_value_nl': S('x-s', '\tv\r\n'),
 }
 
 
